@@ -34,7 +34,7 @@ Inductive op :=
 | OQueryFail      (* a statement at a moment when the DB-API connect fails: if the session has to connect, pool._connect() raises *)
 | OEnd            (* db_session.__exit__: commit or rollback, then release the connection to the pool *)
 | OFail           (* the session's connection is dropped: provider.drop -> pool.drop(con) -> con.close() *)
-| ODisconnect.    (* db.disconnect() outside a session *)
+| ODisconnect.    (* db.disconnect() outside a session: Pool.disconnect (whether it compares pids is read from the source) *)
 
 Definition is_session_op (o : op) : bool := match o with ODisconnect => false | _ => true end.
 
@@ -109,7 +109,10 @@ Definition step (s : proc) (o : op) : proc :=
     | S _ => s                                             (* TransactionError: disconnect() inside db_session *)
     | O => match pcon s with
            | None => s
-           | Some c => mkproc (pid s) None (ppid s) (forked s) (ccon s) 0 (serial s) (log s ++ [EClose (pid s) c])
+           | Some c =>
+             if disconnect_checks_pid && negb (optz_eqb (ppid s) (Some (pid s)))
+             then mkproc (pid s) None (ppid s) (forked s ++ [(c, ppid s)]) (ccon s) 0 (serial s) (log s)   (* inherited: parked, not closed *)
+             else mkproc (pid s) None (ppid s) (forked s) (ccon s) 0 (serial s) (log s ++ [EClose (pid s) c])
            end
     end
   end.
